@@ -24,6 +24,9 @@ type Part struct {
 	TArgs map[string]string `json:"targs,omitempty"`
 	// DocRef: "import/path.Type": render the doc lines Package(path).Doc reports for that type as one comment.
 	DocRef string `json:"doc_ref,omitempty"`
+	// Results: one comment line per package-level function of the processed package (in name order) with
+	// what Package.ResultsOf reports for it - what a generator collecting the errors of handlers does.
+	Results bool `json:"results,omitempty"`
 }
 
 // Rule says what a scripted generator does for one (package, type).
@@ -44,6 +47,9 @@ type GenScript struct {
 	AliasRules map[string]Rule `json:"alias_rules,omitempty"`
 	// NoAlias: the generator does not implement AliasGenerator.
 	NoAlias bool `json:"no_alias,omitempty"`
+	// Inspect: in every GenerateType call the generator compares the name tables of its own package and
+	// of the packages it imports with go/types' scopes, through the public API (C13 seen from inside a run).
+	Inspect bool `json:"inspect,omitempty"`
 }
 
 // Fault is one entry of a fault plan. The target event is addressed either by
@@ -80,16 +86,24 @@ type RunReq struct {
 	Faults   []Fault        `json:"faults,omitempty"`
 	Universe bool           `json:"universe,omitempty"` // load only and report the universe (C13)
 	UniAll   bool           `json:"uni_all,omitempty"`  // report every package, not only module ones
+	// UniLocateFirst: call LocateInPackage with positions reached through go/types alone, before the
+	// package that contains them has been asked for by path
+	UniLocateFirst bool `json:"uni_locate_first,omitempty"`
 	// UniMethodsFirst: ask MethodsOf before any other accessor of a package (answers must not depend on the order of questions)
 	UniMethodsFirst bool `json:"uni_methods_first,omitempty"`
 	ReadSum         bool `json:"read_sum,omitempty"` // report sumfile.Load(root) after the run
 	// DriverFailsOnce: the first invocation of the package driver in this request fails (a transient
 	// go list failure); later invocations work normally.
 	DriverFailsOnce bool `json:"driver_fails_once,omitempty"`
+	// FirstGlobals: before the reported Execute, call Execute once on the same executor with these global
+	// tags (a driver that loads once and runs several passes with different tags); args are then changed
+	// in place to Args.Globals.
+	FirstGlobals    map[string][]string `json:"first_globals,omitempty"`
+	HasFirstGlobals bool                `json:"has_first_globals,omitempty"`
 	// RetrySameExecutor: if Execute fails, call Execute once more on the SAME executor (a caller's retry
 	// loop); the report then describes the second call, FirstExecErr holds the first error.
 	RetrySameExecutor bool `json:"retry_same_executor,omitempty"`
-	NoEvents        bool `json:"no_events,omitempty"`
+	NoEvents          bool `json:"no_events,omitempty"`
 }
 
 // Event is one entry of the trace.
@@ -109,6 +123,8 @@ type Event struct {
 	Off   int64  `json:"off,omitempty"`
 	Fault string `json:"fault,omitempty"`
 	Nth   int    `json:"nth,omitempty"` // occurrence index of (kind, path) within its phase
+	// Problems: what an inspecting generator found wrong with the universe it was handed (C13).
+	Problems []Problem `json:"problems,omitempty"`
 }
 
 // Problem is one disagreement between a gengo accessor and go/types.
@@ -135,18 +151,20 @@ type PkgReport struct {
 
 // RunResp is the answer to a RunReq.
 type RunResp struct {
-	ID       int                       `json:"id"`
-	LoadErr  string                    `json:"load_err,omitempty"`
-	ExecErr  string                    `json:"exec_err,omitempty"`
+	ID      int    `json:"id"`
+	LoadErr string `json:"load_err,omitempty"`
+	ExecErr string `json:"exec_err,omitempty"`
 	// FirstExecErr / FirstExecuted: what the first of two Execute calls on one executor did.
-	FirstExecErr  string   `json:"first_exec_err,omitempty"`
-	FirstExecuted []string `json:"first_executed,omitempty"`
-	Panic    string                    `json:"panic,omitempty"`
-	Events   []Event                   `json:"events,omitempty"`
-	Fired    []string                  `json:"fired,omitempty"` // faults that fired, as "index:kind"
-	Sites    map[string]simrt.SiteStat `json:"sites,omitempty"`
-	Sum      map[string]string         `json:"sum,omitempty"`
-	SumErr   string                    `json:"sum_err,omitempty"`
-	Universe []PkgReport               `json:"universe,omitempty"`
-	RunIndex int                       `json:"run_index"` // how many runs this process served before
+	FirstExecErr  string                    `json:"first_exec_err,omitempty"`
+	FirstExecuted []string                  `json:"first_executed,omitempty"`
+	Panic         string                    `json:"panic,omitempty"`
+	// Late: what gengo still did to the module (or which callbacks it still made) after Execute had returned
+	Late          []string                  `json:"late,omitempty"`
+	Events        []Event                   `json:"events,omitempty"`
+	Fired         []string                  `json:"fired,omitempty"` // faults that fired, as "index:kind"
+	Sites         map[string]simrt.SiteStat `json:"sites,omitempty"`
+	Sum           map[string]string         `json:"sum,omitempty"`
+	SumErr        string                    `json:"sum_err,omitempty"`
+	Universe      []PkgReport               `json:"universe,omitempty"`
+	RunIndex      int                       `json:"run_index"` // how many runs this process served before
 }
